@@ -28,7 +28,7 @@ COMPONENTS = {"real": ["reb_simulation_copy, reb_simulation_diff, reb_binary_dif
 ASSUMPTIONS = ["callbacks are re-attached to the copy before equality is asserted (the function-pointer flag is persisted)",
                "a mutation counts only if it is sticky (the serialiser recomputes some caches); array-sizing fields are only mutated downwards"]
 PROBES = ["with_variational", "with_megno", "unsynchronized_state", "with_tree", "with_display_settings", "mutations_sticky", "mutations_not_sticky",
-          "walltime_mutations_ignored", "pointer_mutations_ignored", "freed_copy_then_stepped_source", "tree_of_copy_checked", "live_arrays_compared", "copy_on_differently_filled_heap", "compact_system_merged_before_copy", "source_has_automatic_archive", "copy_outlived_its_origin", "one_sided_difference"]
+          "walltime_mutations_ignored", "pointer_mutations_ignored", "freed_copy_then_stepped_source", "tree_of_copy_checked", "live_arrays_compared", "copy_on_differently_filled_heap", "compact_system_merged_before_copy", "source_has_automatic_archive", "copy_outlived_its_origin", "one_sided_difference", "particles_with_additional_parameters"]
 
 # dtype codes of reb_binary_field_descriptor
 DT = dict(DOUBLE=0, INT=1, UINT=2, UINT32=3, INT64=4, UINT64=5, VEC3D=7, PARTICLE=8, POINTER=9, POINTER_ALIGNED=10, DP7=11, OTHER=12, END=13, PARTICLE4=15, POINTER_FIXED=16)
@@ -75,7 +75,7 @@ def generate(rng, tier, index):
                     msel=s.u64() % 10**9, fill=rng.derive("fill").choice([0x00, 0x00, 0xFF, 0x5A]))
     return dict(config=cfg, ops=warm, nB=s.randint(1, 12), nA=s.randint(0, 5), jump_us=s.choice([3600 * 10**6, -3600 * 10**6, 10**12]),
                 clock_step=s.choice([0, 1, 1000, 10**6]), transport=s.choice(["pickle", "bytes", "file"]), msel=s.u64() % 10**9,
-                fill=rng.derive("fill").choice([0xCB, 0x00, 0x00, 0xFF, 0x5A]))
+                fill=rng.derive("fill").choice([0xCB, 0x00, 0x00, 0xFF, 0x5A]), with_ap=rng.derive("ap").chance(0.3))
 
 
 def execute(case, ctx):
@@ -185,9 +185,23 @@ def execute(case, ctx):
 
     # ---- 1. copy equals source ---------------------------------------------------------------
     ctx.op(100)
+    ap_bufs = []
+    if case.get("with_ap"):
+        # per-particle additional parameters (the `ap` pointer, used by extension libraries): memory owned by the source
+        for i in range(A.N - A.N_var):
+            b_ = ctypes.create_string_buffer(32)
+            ap_bufs.append(b_)
+            A.particles[i].ap = ctypes.addressof(b_)
+        probe("particles_with_additional_parameters")
     with rb.quiet():
         B = A.copy()
         simgen.attach_callbacks(rebound, rb, B, cfg)
+    if ap_bufs:
+        owned = set(ctypes.addressof(b_) for b_ in ap_bufs)
+        shared = [i for i in range(B.N - B.N_var) if (B.particles[i].ap or 0) in owned]
+        if shared:
+            viol("independence", "the copy's particles point at additional-parameter memory owned by the source", "particles %s" % shared[:6], key="independence:shared-ap")
+            return result()
     if not eq3(A, B, "its own copy") or not same_aux(A, B, "its own copy"):
         return result()
     # ---- 5. a simulation equals its own restored snapshot -------------------------------------
